@@ -20,7 +20,21 @@ def main():
         res.inconclusive.append(str(e))
     else:
         mod = importlib.import_module(f"rvmon.checks.{check.lower()}")
-        mod.run_shard(spec, res)
+        try:
+            mod.run_shard(spec, res)
+        except Exception as e:
+            # An exception escaping from rv code in the middle of a workload whose operations the property
+            # says must succeed is an observation about the code under test, not a harness fault: report it
+            # as a violation keyed by where it was raised.  Anything else stays a crash (=> inconclusive).
+            import traceback
+            from .workload import exc_key
+            tb = traceback.extract_tb(e.__traceback__)
+            if tb and tb[-1].filename.startswith(env.SRC):
+                res.violation(f"{mod.PROPERTY}:unexpected-exception:{exc_key(e)}",
+                              f"workload operation raised {e!r} inside rv: " + "".join(traceback.format_tb(e.__traceback__)[-3:])[-900:],
+                              {"shard": spec})
+            else:
+                raise
     with open(out_path + ".tmp", "w") as f:
         json.dump(res.as_dict(), f, default=str)
     import os
